@@ -18,42 +18,80 @@ files = {
     'dir/sub/a.bare': "include 'c.bare'\\naa = 'a'\\nreturn\\naa = 'not reached'\\n",
     'dir/sub/c.bare': "cc = 'c'\\n",
     'dir/b.bare': "bb = 'b'\\n",
+    'dir/two.bare': "include 'sub/c.bare'\\nmarker = 1\\ninclude 'b.bare'\\nreturn arrayNew(bb, cc)\\n",
     'sys/lib.bare': "lib = 1\\n",
+    'dir/broken.bare': 'a = (\\n',
 }
 fetched = []
 def fetch(req):
     fetched.append(req['url'])
     return files.get(req['url'])
-opts = {'fetchFn': fetch, 'globals': {}, 'urlFn': partial(url_file_relative, 'dir/main.bare'), 'systemPrefix': 'sys/x'}
-got = execute_script(parse_script(files['dir/main.bare']), opts)
-if got != ['a', 'b', 'c'] or fetched != ['dir/sub/a.bare', 'dir/sub/c.bare', 'dir/b.bare']:
-    bad.append({'what': 'relative resolution / order / return ends only the included script', 'result': repr(got), 'fetched': fetched})
-if opts['urlFn']('x.bare') != 'dir/x.bare':
-    bad.append({'what': "the includer's own urlFn changed", 'observed': opts['urlFn']('x.bare')})
-fetched.clear()
-execute_script(parse_script('include <lib.bare>\\n'), dict(opts, globals={}))
-if fetched != ['sys/lib.bare']:
-    bad.append({'what': 'system include resolves against systemPrefix', 'fetched': list(fetched)})
-try:
-    execute_script(parse_script("include 'missing.bare'\\n"), dict(opts, globals={}))
-    bad.append({'what': 'missing include did not fail'})
-except BareScriptRuntimeError as exc:
-    if 'dir/missing.bare' not in str(exc):
-        bad.append({'what': 'error does not name the resolved location', 'observed': str(exc)})
-files['dir/broken.bare'] = 'a = (\\n'
-try:
-    execute_script(parse_script("include 'broken.bare'\\n"), dict(opts, globals={}))
-    bad.append({'what': 'broken include did not fail'})
-except BareScriptParserError as exc:
-    if 'dir/broken.bare' not in str(exc):
-        bad.append({'what': 'parser error does not name the include', 'observed': str(exc)})
-# statement budget across an include (C09)
-o2 = {'fetchFn': lambda req: 'a = 1\\nb = 2\\nc = 3\\n', 'globals': {}, 'maxStatements': 4}
-try:
-    execute_script(parse_script("include 'inc.bare'\\nd = 4\\n"), o2)
-    bad.append({'what': 'included statements are not counted against maxStatements', 'count': o2.get('statementCount')})
-except BareScriptRuntimeError:
-    pass
+def options(**kw):
+    o = {'fetchFn': fetch, 'globals': {}, 'urlFn': partial(url_file_relative, 'dir/main.bare'), 'systemPrefix': 'sys/x'}
+    o.update(kw)
+    return o
+def attempt(what, fn):
+    del fetched[:]
+    try:
+        fn()
+    except Exception as exc:     # any escape the scenario itself does not expect is a finding of the scenario
+        bad.append({'what': what, 'observed': 'EXC ' + type(exc).__name__ + ': ' + str(exc)[:200], 'fetched': list(fetched)})
+
+def nested():
+    opts = options()
+    got = execute_script(parse_script(files['dir/main.bare']), opts)
+    if got != ['a', 'b', 'c'] or fetched != ['dir/sub/a.bare', 'dir/sub/c.bare', 'dir/b.bare']:
+        bad.append({'what': 'relative resolution / order / return ends only the included script', 'result': repr(got), 'fetched': list(fetched)})
+    if opts['urlFn']('x.bare') != 'dir/x.bare':
+        bad.append({'what': "the includer's own urlFn changed", 'observed': opts['urlFn']('x.bare')})
+attempt('nested relative includes', nested)
+
+def after_statement():
+    got = execute_script(parse_script(files['dir/two.bare']), options())
+    if got != ['b', 'c'] or fetched != ['dir/sub/c.bare', 'dir/b.bare']:
+        bad.append({'what': 'an include after an include from another directory still resolves against the includer', 'result': repr(got), 'fetched': list(fetched)})
+attempt('include, statement, include', after_statement)
+
+def system():
+    execute_script(parse_script('include <lib.bare>\\n'), options())
+    if fetched != ['sys/lib.bare']:
+        bad.append({'what': 'system include resolves against systemPrefix', 'fetched': list(fetched)})
+attempt('system include', system)
+
+def missing():
+    try:
+        execute_script(parse_script("include 'missing.bare'\\n"), options())
+        bad.append({'what': 'missing include did not fail'})
+    except BareScriptRuntimeError as exc:
+        if 'dir/missing.bare' not in str(exc):
+            bad.append({'what': 'error does not name the resolved location', 'observed': str(exc)})
+attempt('missing include', missing)
+
+def broken():
+    try:
+        execute_script(parse_script("include 'broken.bare'\\n"), options())
+        bad.append({'what': 'broken include did not fail'})
+    except BareScriptParserError as exc:
+        if 'dir/broken.bare' not in str(exc):
+            bad.append({'what': 'parser error does not name the include', 'observed': str(exc)})
+attempt('broken include', broken)
+
+def in_function():
+    g3 = {}
+    got = execute_script(parse_script("function load(bb):\\n    include 'b.bare'\\n    return bb\\nendfunction\\nreturn arrayNew(load('arg'), bb)\\n"),
+                         options(globals=g3))
+    if got != ['arg', 'b'] or g3.get('bb') != 'b':
+        bad.append({'what': "an include inside a function must assign globals, not the call's locals", 'result': repr(got), 'globals_bb': g3.get('bb')})
+attempt('include inside a function', in_function)
+
+def budget():
+    o2 = {'fetchFn': lambda req: 'a = 1\\nb = 2\\nc = 3\\n', 'globals': {}, 'maxStatements': 4}
+    try:
+        execute_script(parse_script("include 'inc.bare'\\nd = 4\\n"), o2)
+        bad.append({'what': 'included statements are not counted against maxStatements', 'count': o2.get('statementCount')})
+    except BareScriptRuntimeError:
+        pass
+attempt('statement budget across an include (C09)', budget)
 result = {'violates': bool(bad), 'counterexamples': bad[:3]}
 """
 
@@ -61,7 +99,8 @@ result = {'violates': bool(bad), 'counterexamples': bad[:3]}
 def include_bounded(pr, prop):
     res = run_witness(INCLUDE_WITNESS)
     pr.bounded.append('include arm in the quick tier: bounded native stand-in (a fixed include tree: nested relative includes, '
-                      'system include, missing and broken files, budget across an include); the symbolic proof of the arm runs in the thorough tier')
+                      'system include, include inside a function, missing and broken files, budget across an include); the symbolic run of the arm '
+                      'leaves 488 of 1693 obligations undecided and is therefore outside both tiers (not proved)')
     if res.get('violates'):
         pr.failures.append({'obligation': f'{prop}.bounded.include-semantics', 'function': 'runtime._execute_script_helper#stmt-include',
                             'path': '', 'inputs': {'native_witness': 'include tree'},
@@ -76,10 +115,11 @@ def run(tier):
     run_contracts(pr, [URL_FILE_RELATIVE_IMPL], tier)
     run_contracts_sel(pr, [EXECUTE_SCRIPT_HELPER], tier, 'C17')
     include_bounded(pr, 'C17')
-    pr.explanation = ('Proved: url_file_relative implements the four resolution cases on every path. Thorough tier: the include arm of '
+    pr.explanation = ('Proved: url_file_relative implements the four resolution cases on every path. NOT proved: the include arm of '
                       'the statement loop (resolve, fetch exactly once with the resolved location, parse, nested run in global scope '
-                      'under a copy of the options with a re-based urlFn, errors naming the location). Quick tier: a bounded native '
-                      'stand-in for that arm. bare._fetch_include (package-resource I/O) is outside the subset and unverified.')
+                      'under a copy of the options with a re-based urlFn, errors naming the location) — contracts and step specs are '
+                      'written and 1199 of its 1693 obligations discharge, the rest time out; a bounded native stand-in decides '
+                      'that arm in both tiers. bare._fetch_include (package-resource I/O) is outside the subset and unverified.')
     pr.assumptions += RUNTIME_ASSUMPTIONS + [
         'os.path.join / os.path.dirname / pathlib.Path and whether a string is a URL (regex ^[a-z]+:) are uninterpreted',
         'adjacent include statements merging in parse_script is covered by the C06 harness only as far as exception containment',
